@@ -480,20 +480,15 @@ def rel_pc_of(ev, A):
     return ev.pc[n:]
 
 
-_C01_CACHE = {}
+_REUSE_CACHE = {}
 
 
-def splitter_contract(ctx, repo):
-    """C07 assumes of ``cv.split(y)`` exactly what C01 decides (window/test arithmetic, feasibility guards, cutoffs).  The C01
-    rules are run here and any failure is reported as a C07 obligation (no duplicated logic)."""
-    from .. import report as _report
-    from . import c01 as _c01
+def closure_key(repo, relpaths):
+    """Content hash of the import closure (top-level and local imports, inside the package) of the given modules: what an
+    AST analysis started there can reach.  Used to memoise reused rule sets across the overlays of the self-test."""
     import ast as _ast
     import hashlib
-    # C01's verdicts depend only on the sources its analysis can reach: the import closure (top-level and local imports) of the
-    # splitter module.  Results are memoised per content hash of that closure (the self-test analyses hundreds of overlays).
-    start = repo.module("sktime/forecasting/model_selection/_split.py")
-    seen, todo = {}, [start]
+    seen, todo = {}, [repo.module(r) for r in relpaths]
     while todo:
         m = todo.pop()
         if m.name in seen:
@@ -517,30 +512,109 @@ def splitter_contract(ctx, repo):
     for nm in sorted(seen):
         h.update(nm.encode())
         h.update(seen[nm].src.encode())
-    key = h.hexdigest()
-    sub_ctx = _C01_CACHE.get(key)
+    return h.hexdigest()
+
+
+def reuse_rules(ctx, repo, prop, runner, start_relpaths, my_rule, label, why, select=None):
+    """Run another property's rules (``runner(sub_ctx)``) and report their failures as obligations of this property: the
+    contract this property assumes of a dependency is exactly what that property decides (no duplicated logic).
+    Known findings of the other property stay with it."""
+    from .. import report as _report
+    key = (prop, label, closure_key(repo, start_relpaths))
+    sub_ctx = _REUSE_CACHE.get(key)
     if sub_ctx is None:
-        sub_ctx = _report.Ctx("C01", repo, ctx.tier)
+        sub_ctx = _report.Ctx(prop, repo, ctx.tier)
         try:
-            _c01.run(sub_ctx)
+            runner(sub_ctx)
         except AnalysisError as e:
-            ctx.undecided("R3", "splitter-contract", "C01 rules could not be evaluated: %s" % e, None)
+            ctx.undecided(my_rule, label, "%s rules could not be evaluated: %s" % (prop, e), None)
             return
-        _C01_CACHE[key] = sub_ctx
-    known = {"%s|%s" % (k_["rule"], k_["construct"]) for k_ in _report.load_known() if k_.get("property") == "C01" and k_.get("status", "known") == "known"}
+        _REUSE_CACHE[key] = sub_ctx
+    known = {"%s|%s" % (k_["rule"], k_["construct"]) for k_ in _report.load_known()
+             if k_.get("property") == prop and k_.get("status", "known") == "known"}
     n_ok = 0
     for r_ in sub_ctx.results:
-        key = "%s|%s" % (r_["rule"], r_["construct"])
-        name = "splitter-contract:C01-%s:%s" % (r_["rule"], r_["construct"])
-        if r_["verdict"] == _report.VIOLATION and key not in known:
-            ctx.violation("R3", name, "evaluate() takes one row per (train, test) pair of cv.split(y) as that split's windows; the splitter breaks "
-                          "it: %s" % r_["detail"], r_["loc"])
+        if select is not None and not select(r_):
+            continue
+        name = "%s:%s-%s:%s" % (label, prop, r_["rule"], r_["construct"])
+        if r_["verdict"] == _report.VIOLATION:
+            if "%s|%s" % (r_["rule"], r_["construct"]) not in known:
+                ctx.violation(my_rule, name, "%s: %s" % (why, r_["detail"]), r_["loc"])
         elif r_["verdict"] == _report.UNDECIDED:
-            ctx.undecided("R3", name, r_["detail"], r_["loc"])
+            ctx.undecided(my_rule, name, r_["detail"], r_["loc"])
         else:
             n_ok += 1
-    ctx.ok("R3", "splitter-contract", "%d obligations of the splitters (C01 rules R1-R5: train/test arithmetic, feasibility, cutoffs) hold" % n_ok,
-           "sktime/forecasting/model_selection/_split.py")
+    ctx.ok(my_rule, label, "%d obligations decided by the %s rules hold" % (n_ok, prop), None)
+
+
+def splitter_contract(ctx, repo):
+    """C07 assumes of ``cv.split(y)`` exactly what C01 decides (window/test arithmetic, feasibility guards, cutoffs)."""
+    from . import c01 as _c01
+    reuse_rules(ctx, repo, "C01", _c01.run, ["sktime/forecasting/model_selection/_split.py"], "R3", "splitter-contract",
+                "evaluate() takes one row per (train, test) pair of cv.split(y) as that split's windows; the splitter breaks it")
+
+
+def _callee_closure(repo, module, fdefs, prefix):
+    """Simple names of the package functions (dotted name starting with ``prefix``) transitively called from ``fdefs``."""
+    import ast as _ast
+    out, todo = {}, [(module, f) for f in fdefs]
+    while todo:
+        m, f = todo.pop()
+        for c in _ast.walk(f):
+            if not isinstance(c, _ast.Call):
+                continue
+            sym = repo.resolve_expr(m, c.func)
+            if sym is None:
+                # local imports inside the function
+                for node in _ast.walk(f):
+                    if isinstance(node, _ast.ImportFrom) and isinstance(c.func, _ast.Name) and any((a.asname or a.name) == c.func.id for a in node.names):
+                        sym = repo._resolve_abs(m._abs(node.level, node.module) + "." + c.func.id)
+            if sym is not None and sym.kind == "func" and sym.dotted.startswith(prefix) and sym.dotted not in out:
+                out[sym.dotted] = sym
+                todo.append((sym.module, sym.target))
+    return out
+
+
+def validator_contract(ctx, repo):
+    """The validators evaluate() relies on (check_y_X -> check_y / check_X / check_series / check_equal_time_index, check_cv,
+    check_scoring, check_fh) reject what they have to reject: decided by C20-R2 (truth tables of the validators' own predicates)."""
+    from . import c20 as _c20
+    from ..boolx import bind_repo as _bind
+
+    def runner(sub):
+        _bind(repo)
+        _c20.rule_R2(sub, repo)
+
+    mod = repo.module(FUNCS)
+    deps = _callee_closure(repo, mod, [repo.func(FUNCS, "evaluate"), repo.func(FUNCS, "_split")], "sktime.utils.validation")
+    names = {d.rsplit(".", 1)[-1] for d in deps}
+
+    def select(r_):
+        head = r_["construct"].split(":")[0].split("[")[0]
+        return head.rsplit(".", 1)[-1] in names
+
+    reuse_rules(ctx, repo, "C20", runner, [VALID, "sktime/utils/validation/series.py"], "R4", "validator-contract",
+                "evaluate() relies on this validator (called through %s)" % ", ".join(sorted(n for n in names if n in ("check_y_X", "check_cv", "check_scoring", "check_fh"))),
+                select)
+
+
+def default_metric_contract(ctx, repo):
+    """With scoring=None the score is the default metric's value: the formula of the metric function behind
+    MeanAbsolutePercentageError (and the kernels it calls) is what C06 decides."""
+    from . import c06 as _c06
+    rel = "sktime/performance_metrics/forecasting/_functions.py"
+    mod = repo.module(rel)
+    if "mean_absolute_percentage_error" not in mod.defs:
+        raise AnalysisError("anchor missing: mean_absolute_percentage_error")
+    deps = _callee_closure(repo, mod, [mod.defs["mean_absolute_percentage_error"]], "sktime.performance_metrics")
+    names = {"mean_absolute_percentage_error", "MeanAbsolutePercentageError"} | {d.rsplit(".", 1)[-1] for d in deps}
+
+    def select(r_):
+        head = r_["construct"].split(":")[0].split("[")[0]
+        return head.rsplit(".", 1)[-1] in names
+
+    reuse_rules(ctx, repo, "C06", _c06.run, [rel, CLASSES], "R4", "default-metric-contract",
+                "evaluate(scoring=None) reports the value of this metric function", select)
 
 
 def option_args(out, scen, kind, sig, b, data_roles, loc):
@@ -1175,6 +1249,20 @@ def run(ctx):
                "shape of utils.datetime._coerce_duration_to_int is decided here, not the date arithmetic of pandas")
     ctx.assume("predict() does not move the forecaster's cutoff (C03-R2); BaseForecaster.fit/update/predict signatures are "
                "the ones every forecaster implements")
+    run_core(ctx)
+    check_duration_coercion(ctx, repo)
+    splitter_contract(ctx, repo)
+    validator_contract(ctx, repo)
+    default_metric_contract(ctx, repo)
+    ctx.floor("R1", 9)
+    ctx.floor("R2", 12)
+    ctx.floor("R3", 13)
+    ctx.floor("R4", 11)
+
+
+def run_core(ctx):
+    """The rules on evaluate() / _split / _check_strategy / check_scoring / check_cv themselves (also reused by C08-R3)."""
+    repo = ctx.repo
     callsig = metric_call_signature(ctx, repo)
     out = Merged(ctx)
     A = None
@@ -1184,9 +1272,3 @@ def run(ctx):
     check_strategy_validator(ctx, repo, getattr(A, "strategy_strings", set()))
     check_scoring_validator(ctx, repo, callsig)
     check_cv_validator(ctx, repo)
-    check_duration_coercion(ctx, repo)
-    splitter_contract(ctx, repo)
-    ctx.floor("R1", 9)
-    ctx.floor("R2", 12)
-    ctx.floor("R3", 13)
-    ctx.floor("R4", 9)
